@@ -61,8 +61,14 @@ def gen_cases(tier, seed):
         e = POOL[name]
         for i in range(max(2, reps // e.slow)):
             s = stable_hash(seed, "C20", "sub", name, i)
-            cases.append({"wrapper": "sub", "entry": name, "seed": s, "max_candidates": [0.5, 3, 0.3, 1, 1.0, 2][i % 6],
+            cases.append({"wrapper": "sub", "entry": name, "seed": s, "max_candidates": [0.5, 3, 0.3, 1, 1.0, 2, 0.1, 0.7][i % 8],
                           "exclude": bool((s >> 3) % 2), "cmode": None, "nmax": 12 if tier == "quick" else 22})
+    # pool sizes at which the float product n * fraction exceeds the exact one (25 * 0.28 = 7.000000000000001, 50 * 0.14): cold start,
+    # all samples are candidates
+    for name in ("RandomSampling", "CoreSet", "GreedySamplingX", "TypiClust"):
+        for j, (mc, n) in enumerate([(0.28, 25), (0.14, 50), (0.28, 25)]):
+            cases.append({"wrapper": "sub", "entry": name, "seed": stable_hash(seed, "C20", "subfrac", name, j), "max_candidates": mc,
+                          "exclude": bool(j % 2), "cmode": "none", "labels": "cold", "n": n, "nmax": 12 if tier == "quick" else 22})
     for name in SAW_OK:
         e = POOL[name]
         for i in range(max(2, reps // e.slow)):
@@ -291,7 +297,10 @@ def run_sub(desc, c, e, add, rng):
         steps.end()
     contracts.count("C20.subsampling-translation-checker")
     n_cand = len(c.cset)
-    size = min(mc, n_cand) if isinstance(mc, int) else min(math.ceil(mc * n_cand), n_cand)
+    # documented size of the sub-sample, in exact arithmetic on the decimal literal (0.3 means 3/10): float products such
+    # as 25 * 0.28 = 7.000000000000001 must not add a candidate
+    from fractions import Fraction
+    size = min(mc, n_cand) if isinstance(mc, int) else min(math.ceil(Fraction(repr(mc)) * n_cand), n_cand)
     idx, U = np.asarray(out[0]), np.asarray(out[1], float)
     if len(log) != 1:
         add("inner-not-called-exactly-once", "%d calls" % len(log))
